@@ -628,7 +628,8 @@ func oracleC08(t *Trace, v *vset) {
 				continue
 			}
 			st := status(a.Snap, o.Path)
-			k := okey{0, a.Gen, o.Path} // across clients: one store, one history
+			// per reader: with slow replies two readers' results can arrive in another order than they were read
+			k := okey{a.Client, a.Gen, o.Path}
 			if prev, ok := seen[k]; ok && prev != st {
 				v.addf("C08", "C08.r4", "reader saw a "+kindLabel(o)+" go from "+stName(prev)+" to "+stName(st), []int{a.RetSeq}, "%s read as %s after having been read as %s", o.Path, stName(st), stName(prev))
 			}
